@@ -1,6 +1,9 @@
 ------------------------------- MODULE MC_Eval -------------------------------
 EXTENDS Eval
-Dims23 == <<2, 3>>
-Dims21 == <<2, 1>>
-Dims32 == <<3, 2>>
+Dims23 == <<<<2>>, <<3>>>>
+Dims21 == <<<<2>>, <<1>>>>
+Dims32 == <<<<3>>, <<2>>>>
+\* multi-wire object images: x is sent to Dim(2, 2) (its own mirror image, so cups exist), resp. Dim(2, 3) (cup-free diagrams only)
+DimsM22 == <<<<2, 2>>, <<3>>>>
+DimsM23 == <<<<2, 3>>, <<2>>>>
 =============================================================================
